@@ -3,6 +3,8 @@ CONSTANTS
   NT = 3
   NU = 1
   NA = 2
+  Throwing = TRUE
+  WithMake = TRUE
   Vals = {1, 2, 3}
 INVARIANTS WellFormed LastAgrees
 POSTCONDITION Post
